@@ -111,13 +111,14 @@ func init() {
 		ID:     "C08",
 		Solver: "cvc5",
 		Quick: func(l *loaded) []Inst {
-			return dptAll(l, "HarnessC08", func(m, s int64) []int64 {
+			out := dptAll(l, "HarnessC08", func(m, s int64) []int64 {
 				var r []int64
 				for i := int64(0); i <= 20; i++ {
 					r = append(r, i)
 				}
 				return r
 			})
+			return append(out, Inst{Pkg: "dpt", Fn: "HarnessStubCalendar", Note: "native validation of the time.Date stub over years 1895..2105 and corner years x 256 months x 256 days"})
 		},
 		Covers:  []string{"C08.accept", "C08.reject"},
 		Bounds:  "every registered type (names read from the registry initialiser of the current source) x every payload length 0..20, all payload bytes symbolic",
